@@ -404,6 +404,8 @@ def classify(case, impl, fail):
     if fail.get('kind') != 'counterexample' or not isinstance(impl, dict):
         return None
     why = str(fail.get('why', ''))
+    if 'model differs from implementation' in why:
+        return None         # not the known behaviour (the model reproduces every known finding exactly)
     m = _CALLS.search(why)
     if m:
         step, name, exp, got = int(m.group(1)), m.group(2), int(m.group(3)), int(m.group(4))
